@@ -38,7 +38,7 @@ def run(chk, replay=None):
     chk.cov["selections_checked"] = npicks
     for e in rows[:1] + [r for r in rows if r["e"] == "McPick" and 0 in r["w"]][:1] + [r for r in rows if r["e"] == "Count"][:1]:
         chk.sample(e)
-    ok, matched, res = chk.validate("Trace_C09", trace, need_actions=("Pick", "McPick", "Count", "PickAny"))
+    ok, matched, res = chk.validate("Trace_C09", trace, need_actions=("Pick", "McPick", "Count", "PickAny", "PickWide"))
     if not ok:
         bad = rows[matched] if matched < len(rows) else None
         chk.violation("C09:pick", trace, "event %d not admissible under Select.tla: %s" % (matched + 1, str(bad)[:600]))
